@@ -6,7 +6,11 @@ pub struct QtyMap { pub entries: Vec<(AssetName, Int)> }
 impl QtyMap {
     #[verifier::external_body] pub fn iter(&self) -> (r: core::slice::Iter<'_, (AssetName, Int)>)
         ensures r.remaining() == refs(self.entries@), r.obeys_prophetic_iter_laws(), r.decrease() is Some { unimplemented!() }
+    /// BTreeMap::insert (what it stores is not part of the claim on MintAssets::insert: only which values are accepted)
+    #[verifier::external_body] pub fn insert(&mut self, k: AssetName, v: Int) -> (r: Option<Int>) { unimplemented!() }
 }
+clone_eq!(AssetName);
+impl Clone for Int { #[verifier::external_body] fn clone(&self) -> (r: Self) ensures r == *self { unimplemented!() } }
 /// the results: only the sequence of inserts matters here (Assets / MultiAsset are BTreeMap wrappers, their own methods not under contract here)
 #[verifier::external_body] pub struct Assets { _p: core::marker::PhantomData<u8> }
 #[verifier::external_body] pub struct MultiAsset { _p: core::marker::PhantomData<u8> }
